@@ -82,6 +82,24 @@ type verifRing struct {
 	r    RingBuffer[uint64]
 	spec []uint64 // reference deque (model-free oracle)
 	dead bool     // spec no longer meaningful (grow() called outside its precondition / negative Offset)
+	lim  orcLimit
+}
+
+// orcLimit: report the first failing op of a history (its prefix is the replay), at most 25 per run.
+type orcLimit struct {
+	failed   bool
+	reported int
+}
+
+func (l *orcLimit) reset() { l.failed = false }
+
+func (l *orcLimit) filter(orc []string) []string {
+	if len(orc) == 0 || l.failed || l.reported >= 25 {
+		return nil
+	}
+	l.failed = true
+	l.reported++
+	return orc
 }
 
 func NewVerifRing() vh.Component { return &verifRing{} }
@@ -204,6 +222,7 @@ func (c *verifRing) Run(op string) vh.Result {
 		c.r.Init(n)
 		c.spec = nil
 		c.dead = false
+		c.lim.reset()
 		out = "ok"
 		nontriv = false
 	case "push":
@@ -290,7 +309,7 @@ func (c *verifRing) Run(op string) vh.Result {
 			fail("Empty() = %v, reference deque holds %d", c.r.Empty(), len(c.spec))
 		}
 	}
-	return vh.Result{Out: out + " " + ringState(&c.r), NonTrivial: nontriv, Oracle: orc}
+	return vh.Result{Out: out + " " + ringState(&c.r), NonTrivial: nontriv, Oracle: c.lim.filter(orc)}
 }
 
 // ---------------------------------------------------------------- pnq
@@ -299,6 +318,7 @@ type verifPnq struct {
 	q        *packetNumberIndexedQueue[uint64]
 	last     int64 // ghost: last packet number Emplace accepted
 	haveLast bool
+	lim      orcLimit
 }
 
 func NewVerifPnq() vh.Component { return &verifPnq{q: newPacketNumberIndexedQueue[uint64](0)} }
@@ -413,6 +433,7 @@ func (c *verifPnq) Run(op string) vh.Result {
 		c.q = newPacketNumberIndexedQueue[uint64](n)
 		c.haveLast = false
 		c.last = -1
+		c.lim.reset()
 		out = "ok"
 		nontriv = false
 	case "emp":
@@ -493,5 +514,5 @@ func (c *verifPnq) Run(op string) vh.Result {
 			fail("after RemoveUpTo(%d): %d slots in use > lastEmplaced %d - %d + 1", upto, slots, c.last, upto)
 		}
 	}
-	return vh.Result{Out: out + " " + pnqState(q), NonTrivial: nontriv, Oracle: orc}
+	return vh.Result{Out: out + " " + pnqState(q), NonTrivial: nontriv, Oracle: c.lim.filter(orc)}
 }
